@@ -21,6 +21,12 @@ DEFAULT_ROOT = os.environ.get("SA_ROOT", "/repo")
 LAST_CTX = None
 
 
+def _checked(fn):
+    def whole_check(ctx):
+        return fn(ctx)
+    return whole_check
+
+
 def run_property(prop: str, tier: str, root: str, seed: int, evidence_dir=None, write=True) -> int:
     t0 = time.time()
     ctx = RuleContext(prop, None, tier, seed)
@@ -29,7 +35,8 @@ def run_property(prop: str, tier: str, root: str, seed: int, evidence_dir=None, 
         prog = Program(root)
         ctx.prog = prog
         mod = importlib.import_module(f"sa.rules.{prop.lower()}")
-        mod.check(ctx)
+        # the rule groups retry on normal forms themselves; what runs directly in check() is retried as a whole
+        ctx.guard(_checked(mod.check), ctx)
         from .rules.purity import argument_purity
         ctx.guard(argument_purity, ctx)
     except AnalysisError as e:
